@@ -357,6 +357,7 @@ pub enum AliasSyntaxError {
     ExpectedTokenFeature(AliasToken),
     ExpectedEndLine     (AliasToken),
     ExpectedMatrix      (AliasToken),
+    ToneTooBig          (AliasToken),
     ExpectedArrow       (AliasToken),
     UnknownGroup        (AliasToken),
     UnknownIPA          (AliasToken),
@@ -396,6 +397,7 @@ impl ASCAError for AliasSyntaxError {
             Self::ExpectedTokenFeature(token) => format!("{} cannot be placed inside a matrix. An element inside `[]` must a distinctive feature. @ {}", token.value, token.position),
             Self::ExpectedEndLine     (token) => format!("Expected end of line, received '{}' @ {}.", token.value, token.position),
             Self::ExpectedMatrix      (token) => format!("Expected '[', but received '{}' @ {}.", if token.kind == AliasTokenKind::Eol {"End Of Line"} else {&token.value}, token.position),
+            Self::ToneTooBig          (token) => format!("A tone cannot be more than 4 digits long, received '{}' @ {}.", token.value, token.position),
             Self::ExpectedArrow       (token) => format!("Expected '>', '->' or '=>', but received '{}' @ {}.", token.value, token.position),
             Self::UnknownGroup        (token) => format!("Unknown grouping '{}'. Known groupings are (C)onsonant, (O)bstruent, (S)onorant, (P)losive, (F)ricative, (L)iquid, (N)asal, (G)lide, and (V)owel @ {}.", token.value, token.position),
             Self::UnknownIPA          (token) => format!("Could not get value of IPA '{}' @ {}.", token.value, token.position),
@@ -443,6 +445,7 @@ impl ASCAError for AliasSyntaxError {
             Self::ExpectedTokenFeature(token) |
             Self::ExpectedEndLine     (token) |
             Self::ExpectedMatrix      (token) |
+            Self::ToneTooBig          (token) |
             Self::ExpectedArrow       (token) |
             Self::UnknownGroup        (token) |
             Self::UnknownIPA          (token) |
